@@ -1232,9 +1232,12 @@ func genBasicSeal(ctx *Ctx, emit func(Case)) {
 	for c := 0; c < ctx.N(4, 30); c++ {
 		k := basic.NewKeyring()
 		var gen []*basic.SecretKey
+		// real crypto/rand: keep predicates of other workers that script crypto/rand.Reader out meanwhile
+		script.RandMu.Lock()
 		for i := 0; i < 1+c%3; i++ {
 			sk, err := k.GenerateBoxKey()
 			if err != nil {
+				script.RandMu.Unlock()
 				panic(err)
 			}
 			gen = append(gen, sk)
@@ -1247,6 +1250,7 @@ func genBasicSeal(ctx *Ctx, emit func(Case)) {
 		pt := r.Bytes(40)
 		v := saltpack.Version{Major: 1 + c%2}
 		msg, err := saltpack.Seal(v, pt, nil, []saltpack.BoxPublicKey{target.GetPublicKey()})
+		script.RandMu.Unlock()
 		if err != nil {
 			panic(err)
 		}
